@@ -5,7 +5,7 @@ Three groups of cases, all run on the real hash_data_frame / make_cache_key / Re
 pair      all frames with <= 2 rows x <= 2 columns over small per-type domains, each paired with every frame that differs
           from it in exactly one value / one column name / its shape (a row or a column more or less) / its column order /
           its row order / the dtype of one column with equal values, and with a rebuilt equal frame (same content, other
-          object).  Expected: keys equal  <=>  the frames are equal data tables.
+          object).  Expected: equal tables -> equal keys; tables differing in a value / name / shape / order -> different keys.
 datamap   key construction over whole data maps: independent of the dict insertion order; differs for another table
           name, swapped frames, an extra table, another dialect, another SQL text; equal for a second model instance of
           the same dialect.
@@ -13,9 +13,10 @@ history   all store/get histories up to a length bound over 2 keys x 2 results a
           returned copies and of the caller's frames (stored result and data-map frame) after store(); after every
           step the whole view (both keys) must equal the model.
 
-"Equal data tables" follows pandas: a.equals(b) (same shape, same labels, same dtypes, equal values, null == null).
-So two frames that differ only in a column dtype (int64 [1, 0] vs bool [True, False]) are different tables and must
-not share a key.
+"Equal data tables" (keys must be equal) is pandas a.equals(b).  "Differ" (keys must differ) is the property's list: a
+value, a column name, the shape or the row order (`same_values` is False).  Two tables that hold pairwise ==-equal values
+under different column dtypes (int64 [1, 0] vs bool [True, False], 0 vs 0.0, str vs object, empty columns) differ in
+none of these: nothing is demanded of their keys; those that share a key are counted as information only.
 """
 from __future__ import annotations
 
@@ -36,8 +37,8 @@ MAX_UNCLASSIFIED_WITNESSES = 40  # replay files written for unclassified failure
 MAX_WORKERS = 4
 
 FUNCTIONS_UNDER_CONTRACT = [
-    {"function": "data_algebra.eval_cache.hash_data_frame", "contract": "hash(a) == hash(b) <=> a.equals(b), over the enumerated pairs"},
-    {"function": "data_algebra.eval_cache.make_cache_key", "contract": "key equal <=> same dialect name, same SQL text, same table names, equal tables; independent of dict order"},
+    {"function": "data_algebra.eval_cache.hash_data_frame", "contract": "a.equals(b) => same hash; tables differing in a value / column name / shape / row order => different hash (dtype-only differences: no demand)"},
+    {"function": "data_algebra.eval_cache.make_cache_key", "contract": "same dialect name, SQL text, table names and equal tables => equal key; any of these differing (tables: value / column name / shape / row order) => different key; independent of dict order"},
     {"function": "data_algebra.eval_cache.ResultCache.store / get", "contract": "histories agree with a dict model; get returns an equal copy; mutating returned copies or the caller's frames never changes the cache"},
 ]
 
@@ -205,56 +206,63 @@ def _frame_and_key(fd: Dict[str, Any], memo: bool = False):
     return v
 
 
+def _null(v: Any) -> bool:
+    import pandas
+
+    return v is None or v is pandas.NA or v is pandas.NaT or (isinstance(v, float) and v != v)
+
+
+def same_values(fa, fb) -> bool:
+    """do the two tables hold the same values in the property's sense?  same shape, same column names in the same order,
+    same row labels, and every pair of cells is == (null matches null).  The column dtypes are NOT compared: int64 [1, 0] and
+    bool [True, False], 0 and 0.0, 'a' stored as str or as object, and empty columns of any dtype hold the same values."""
+    if fa.shape != fb.shape or list(fa.columns) != list(fb.columns) or list(fa.index) != list(fb.index):
+        return False
+    for j in range(fa.shape[1]):
+        for x, y in zip(fa.iloc[:, j].tolist(), fb.iloc[:, j].tolist()):
+            if _null(x) or _null(y):
+                if not (_null(x) and _null(y)):
+                    return False
+            elif not bool(x == y):
+                return False
+    return True
+
+
 def run_pair(case: Dict[str, Any]) -> Tuple[Optional[str], Dict[str, Any]]:
+    """Oracle (property statement: data maps that differ in any value, column name, shape or row order never share a key; a
+    lookup succeeds for equal data tables):
+      a.equals(b)                      -> the keys must be equal
+      not same_values(a, b)            -> the keys must differ
+      same values, only a dtype differs -> nothing is demanded (the statement does not list the dtype); pairs of this kind
+                                          that share a key are counted as information (obs['dtype_only_shares_key'])"""
     fa, ha, ka = _frame_and_key(case["a"], memo=True)
     fb, hb, kb = _frame_and_key(case["b"])
     equal = bool(fa.equals(fb)) and [str(c) for c in fa.columns] == [str(c) for c in fb.columns]
-    obs = {"frames_equal": equal, "hash_equal": ha == hb, "key_equal": ka == kb, "hash_a": ha[:60], "hash_b": hb[:60]}
+    same = equal or same_values(fa, fb)
+    obs = {"frames_equal": equal, "same_values": same, "hash_equal": ha == hb, "key_equal": ka == kb, "hash_a": ha[:60], "hash_b": hb[:60]}
+    obs["dtype_only_shares_key"] = bool(same and not equal and ka == kb)
     if (ha == hb) != (ka == kb):
         return "hash_data_frame and make_cache_key disagree on this pair (hash equal %r, key equal %r)" % (ha == hb, ka == kb), obs
     if case["relation"] == "rebuilt-equal" and not equal:
         raise RuntimeError("harness: rebuilt frame is not .equals its original: %r" % (case["a"],))
     if equal and ka != kb:
         return "equal data tables (a.equals(b)) get different keys", obs
-    if (not equal) and ka == kb:
-        return "data tables that differ (%s; a.equals(b) is False) share a key" % case["relation"], obs
+    if (not same) and ka == kb:
+        return "data tables that differ in a value / column name / shape / row order (%s) share a key" % case["relation"], obs
     return None, obs
 
 
-_INT_FAMILY = {"int64", "int32", "uint64", "Int64", "bool"}
-
-
-_NUMERIC = _INT_FAMILY | {"float64", "float32"}
-
-
 def classify_pair(case: Dict[str, Any], obs: Dict[str, Any]) -> str:
-    """narrow classifiers for the recorded key collisions (both are properties of pandas.util.hash_pandas_object that
-    hash_data_frame does not compensate for)."""
+    """narrow classifier for the recorded key collision (a property of pandas.util.hash_pandas_object that hash_data_frame
+    does not compensate for)."""
     a, b = case["a"], case["b"]
-    if (not obs["frames_equal"]) and obs["key_equal"] and a["n"] == b["n"] and len(a["cols"]) == len(b["cols"]):
-        if all(ca[0] == cb[0] for ca, cb in zip(a["cols"], b["cols"])):
-            diff_dtype = [(ca, cb) for ca, cb in zip(a["cols"], b["cols"]) if ca[1] != cb[1]]
+    if (not obs["same_values"]) and obs["key_equal"] and a["n"] == b["n"] and len(a["cols"]) == len(b["cols"]):
+        if all(ca[0] == cb[0] and ca[1] == cb[1] for ca, cb in zip(a["cols"], b["cols"])):
             diff_vals = [(ca, cb) for ca, cb in zip(a["cols"], b["cols"]) if ca[2] != cb[2]]
-            if len(diff_dtype) == 1 and not diff_vals:
-                # the same values stored under another dtype: the 8-byte patterns are hashed, the dtype is not part of the key
-                ca, cb = diff_dtype[0]
-                dts = {ca[1], cb[1]}
-                fam = None
-                if a["n"] == 0:
-                    fam = "empty-column"
-                elif dts <= _INT_FAMILY:
-                    fam = "integer-bool-widths"  # int64 / int32 / uint64 / Int64 / bool holding the same integers
-                elif dts <= _NUMERIC and all(v == 0 for v in ca[2]):
-                    fam = "all-zero-int-vs-float"  # integer 0 and float 0.0 (any width) are the all-zero pattern
-                elif dts == {"str", "object"}:
-                    fam = "str-vs-object"
-                if fam:
-                    return "C25:hash_data_frame:dtype-only-difference:" + fam
-            if not diff_dtype and diff_vals:
-                cells = [(ca[1], x, y) for ca, cb in diff_vals for x, y in zip(ca[2], cb[2]) if x != y]
-                if cells and all(dt == "object" and type(x) is not type(y) and str(x) == str(y) for dt, x, y in cells):
-                    # object column holding a non-string value: pandas falls back to hashing str(value), so 1 and '1' collide
-                    return "C25:hash_data_frame:object-column-value-hashed-as-str"
+            cells = [(ca[1], x, y) for ca, cb in diff_vals for x, y in zip(ca[2], cb[2]) if x != y]
+            if cells and all(dt == "object" and type(x) is not type(y) and str(x) == str(y) for dt, x, y in cells):
+                # object column holding a non-string value: pandas falls back to hashing str(value), so 1 and '1' collide
+                return "C25:hash_data_frame:object-column-value-hashed-as-str"
     return "C25:unclassified:" + case_hash(case)
 
 
@@ -467,9 +475,9 @@ def _work(chunk: List[Dict[str, Any]]) -> List[Tuple[Any, ...]]:
     for case in chunk:
         try:
             msg, obs, key = run_case(case)
-            out.append((case_hash(case), msg, obs if msg else None, key, None))
+            out.append((case_hash(case), msg, obs if msg else None, key, None, bool(obs.get("dtype_only_shares_key"))))
         except Exception as e:
-            out.append((case_hash(case), None, None, "", "c25 harness error on %s: %r" % (short(case), e)))
+            out.append((case_hash(case), None, None, "", "c25 harness error on %s: %r" % (short(case), e), False))
     return out
 
 
@@ -510,13 +518,18 @@ def bounded(rep: Report, tier: str, seed: int) -> None:
     relations: Dict[str, int] = {}
     tagged = [("pair", c) for c in pair_cases(tier)] + [("datamap", c) for c in datamap_cases()] + [("history", c) for c in history_cases(tier, seed)]
     results = _run_all([c for _, c in tagged], parallel=True)  # one pool for everything
-    for (group, case), (h, msg, obs, key, err) in zip(tagged, results):
+    dtype_only = {"pairs_with_equal_values_differing_only_in_a_dtype": 0, "of_these_sharing_a_key": 0}
+    for (group, case), (h, msg, obs, key, err, info) in zip(tagged, results):
         if err:
             rep.errors.append(err)
             continue
         groups[group] = groups.get(group, 0) + 1
         if group == "pair":
             relations[case["relation"]] = relations.get(case["relation"], 0) + 1
+            if case["relation"] == "dtype-equal-values":
+                dtype_only["pairs_with_equal_values_differing_only_in_a_dtype"] += 1
+            if info:
+                dtype_only["of_these_sharing_a_key"] += 1
         # non-trivial = keys / views compared; a history of length 1 that only looks up an empty cache is trivial
         trivial = group == "history" and all(o[0] == "get" for o in case["ops"])
         rep.case((group, h), nontrivial=not trivial)
@@ -532,6 +545,7 @@ def bounded(rep: Report, tier: str, seed: int) -> None:
     rep.extra["c25_pairs_by_relation"] = relations
     rep.extra["c25_failing_cases_by_key"] = dict(sorted(per_key.items()))
     rep.extra["c25_scope"] = scope_sizes(tier)
+    rep.extra["dtype_only_pairs_sharing_a_key"] = dtype_only  # information: not demanded by the property either way
     rep.violations.sort(key=lambda v: (v.key, len(json.dumps(v.replay["case"], default=repr))))
 
 
